@@ -331,6 +331,9 @@ def extra_requests(rng, files, info, tier):
 def _one(port, job, timeout):
     kind = job.get('conn', 'plain')
     raw = job['raw']
+    if kind == 'abort':
+        try: return abort_after_send(port, raw, timeout, job.get('first', False))
+        except OSError: return b''
     s = socket.socket(socket.AF_INET, socket.SOCK_STREAM)
     try:
         s.settimeout(timeout)
@@ -399,3 +402,403 @@ def conn_kind(rng, raw, expected_len, holds_left):
     if k < 6 and expected_len > 30000: return dict(conn='slow')
     if k < 7: return dict(conn='plain', before_ms=rng.choice([1, 2, 4]))
     return dict(conn='plain')
+
+# =============================================================================================== second audit pass
+# FEATURES a maintainer of a static web server adds with good intentions (persistent connections, conditional requests, precompressed
+# side files, 100 Continue, proxy / session / upgrade headers, a response cache, batching in the pool …) go wrong on a RELATION
+# between two inputs: two headers; a header and the bytes after the head; a file and its neighbour, their ages and sizes; a
+# validator the server handed out and the request that brings it back; this request and an earlier one on the same connection.
+# The families below put those relations into the multiset; props/c08_features.py holds the probes that need an instance.
+import base64, gzip, hashlib, calendar
+
+T0 = 1600000000                      # 2020-09-13T12:26:40Z: the age everything in z/ y/ ages/ is measured against
+
+def http_date(t):
+    return time.strftime('%a, %d %b %Y %H:%M:%S GMT', time.gmtime(t))
+
+def gz(data):
+    return gzip.compress(data, 6, mtime=0)
+
+def extend_docroot2(root, files, rng, tier):
+    """files and their NEIGHBOURS, AGES and SIZES:
+       z/   plain files each with a side file next to it (.gz newer / older / of the same age, .gz of OTHER content, .br that is no
+            brotli at all, a .gz without its plain file, a .gz LARGER than its plain file, .md5 / .etag / .headers side files)
+       y/   the same names WITHOUT side files; other index names (index.htm), a 404.html and an index.html.gz below the top level
+       ages/  modification times: the epoch, the year 2100, 2001, fractions of one second (…,1 s / …,9 s / exactly whole), the same
+            time on files of different sizes, different times on files of the same size
+       chunk/ sizes that are whole multiples of 64 KiB and 1 MiB, and one byte more
+       cold/  large files with an outdated side file that are NOT part of the request multiset: the cold-start probe asks for them
+    info: dict(sidecar=[(plain url, side url)], twins=[(z url, y url)], ages={url: (seconds, nanoseconds)}, chunk=[url], cold=[(url, content)])"""
+    info = dict(sidecar=[], twins=[], ages={}, chunk=[], cold=[], lonely=[])
+    idx = [800]
+    def put(rel, content=None, size=None, binary=False, listed=True, mtime=None, ns=0):
+        idx[0] += 1
+        if content is None: content = R.file_content(idx[0], size, binary=binary)
+        p = os.path.join(root, rel)
+        os.makedirs(os.path.dirname(p), exist_ok=True)
+        with open(p, 'wb') as fh: fh.write(content)
+        if mtime is not None:
+            os.utime(p, ns=(mtime * 10 ** 9 + ns, mtime * 10 ** 9 + ns))
+            info['ages']['/' + rel] = (mtime, ns)
+        if listed: files['/' + rel] = content
+        return content
+    # ---- z/: side files; y/: the twins without
+    for name, size, age_plain, side_ext, side_of, age_side in [
+            ('site.css', 2000, T0, '.gz', 'same', T0 + 100),        # side file newer than the file: up to date
+            ('app.js', 3000, T0 + 500, '.gz', 'other', T0),        # side file older: outdated (and it holds the older text)
+            ('doc.html', 1500, T0, '.gz', 'other', T0),            # same age, other content
+            ('img.svg', 900, T0, '.br', 'junk', T0 + 100),         # not brotli at all
+            ('big.txt', 150000, T0 + 50, '.gz', 'same', T0),       # large, outdated side file
+            ('empty.txt', 0, T0, '.gz', 'same', T0 + 1),           # the side file is LARGER than the file
+            ('data.txt', 700, T0, '.gz', 'same', T0)]:
+        c = put('z/' + name, size=size, mtime=age_plain)
+        other = R.file_content(idx[0] + 300, max(size, 64))
+        side = {'same': lambda: gz(c), 'other': lambda: gz(other), 'junk': lambda: b'\x00not-brotli\xff' * 20}[side_of]()
+        put('z/' + name + side_ext, side, mtime=age_side)
+        put('y/' + name, size=size, mtime=age_plain)
+        info['sidecar'].append(('/z/' + name, '/z/' + name + side_ext)); info['twins'].append(('/z/' + name, '/y/' + name))
+    put('z/only.txt.gz', gz(b'there is no z/only.txt\n'), mtime=T0); info['lonely'].append('/z/only.txt')
+    put('z/page.html', size=400, mtime=T0); put('z/page.html.gz', gz(b'<p>other page</p>'), mtime=T0 + 5); put('z/index.html', b'<p>index of z</p>', mtime=T0)
+    put('z/index.html.gz', gz(b'<p>OTHER index of z</p>'), mtime=T0 + 5)
+    info['sidecar'] += [('/z/page', '/z/page.html.gz'), ('/z/', '/z/index.html.gz'), ('/z', '/z/index.html.gz')]
+    for rel, content in [('z/.htaccess', b'Deny from all\n'), ('z/.headers', b'X-Custom: from-the-headers-file\nCache-Control: max-age=60\n'),
+                         ('z/site.css.md5', b'00000000000000000000000000000000\n'), ('z/site.css.etag', b'"made-up"\n'), ('z/site.css.meta', b'content-type: text/x-other\n'),
+                         ('y/index.htm', b'<p>index.htm of y</p>'), ('y/sub/404.html', b'<p>404 page of y/sub</p>'), ('y/sub/index.html.gz', gz(b'<p>no plain index here</p>')),
+                         ('y/sub/x.txt', b'x in y/sub\n'), ('y/sub/default.html', b'<p>default</p>'), ('robots.txt', b'User-agent: *\nDisallow:\n'), ('.well-known/security.txt', b'Contact: nobody\n')]:
+        put(rel, content, mtime=T0)
+    # ---- ages
+    for rel, size, mtime, ns in [('ages/epoch.txt', 100, 0, 0), ('ages/future.txt', 100, 4102444800, 0), ('ages/old.txt', 100, 978307200, 0),
+                                 ('ages/whole.txt', 100, T0, 0), ('ages/frac1.txt', 100, T0, 100000000), ('ages/frac9.txt', 100, T0, 900000000), ('ages/next.txt', 100, T0 + 1, 0),
+                                 ('ages/p.txt', 100, T0 + 7, 0), ('ages/q.txt', 333, T0 + 7, 0), ('ages/r.txt', 100, T0 + 9, 0), ('ages/dir/index.html', 60, T0 + 3, 0)]:
+        put(rel, size=size, mtime=mtime, ns=ns)
+    # ---- sizes that are whole pieces
+    for rel, size in [('chunk/c128k.bin', 131072), ('chunk/c1m.bin', 1048576)] + ([] if tier == 'quick' else [('chunk/c64k.bin', 65536), ('chunk/c256k.bin', 262144), ('chunk/c1m1.bin', 1048577), ('chunk/c2m.bin', 2097152)]):
+        put(rel, size=size, binary=True, mtime=T0); info['chunk'].append('/' + rel)
+    # ---- cold files (never part of the multiset)
+    for k in range(8 if tier == 'quick' else 24):
+        c = put('cold/c%d.txt' % k, size=150000 + k, listed=False, mtime=T0 + 50)
+        put('cold/c%d.txt.gz' % k, gz(c[:75000]), listed=False, mtime=T0)
+        info['cold'].append(('/cold/c%d.txt' % k, c))
+    # ---- every other file gets an age that is a function of its name: the validators the server hands out (and the requests that
+    # bring them back) are the same in every run
+    import zlib
+    for d, _, names in os.walk(root):
+        for n in names:
+            p = os.path.join(d, n); rel = os.path.relpath(p, root)
+            if os.path.islink(p) or '/' + rel in info['ages']: continue
+            if os.lstat(p).st_mtime_ns == 1700000000 * 10 ** 9: continue           # same.json x3: the same age on purpose
+            s_ = 1500000000 + zlib.crc32(rel.encode('utf-8', 'surrogateescape')) % 50000000
+            os.utime(p, ns=(s_ * 10 ** 9 + zlib.crc32(rel[::-1].encode('utf-8', 'surrogateescape')) % 10 ** 9,) * 2)
+    return info
+
+# header of the request that brings back what the server handed out in a header of an answer
+HAND_BACK = {'etag': ['If-None-Match', 'If-Match', 'If-Range'], 'last-modified': ['If-Modified-Since', 'If-Unmodified-Since', 'If-Range'],
+             'last-modified-unix-epoch-nanos': ['If-Modified-Since-Unix-Epoch-Nanos', 'If-Unmodified-Since-Unix-Epoch-Nanos', 'If-Modified-Since', 'If-Range', 'If-None-Match'],
+             'set-cookie': ['Cookie'], 'content-md5': ['Content-MD5', 'If-None-Match'], 'digest': ['Digest', 'Want-Digest'], 'location': [], 'x-request-id': ['X-Request-Id'],
+             'www-authenticate': ['Authorization'], 'content-encoding': ['Accept-Encoding'], 'alt-svc': ['Alt-Used'], 'accept-patch': ['Content-Type'], 'accept-post': ['Content-Type']}
+HAND_TARGETS = ['/a/data.txt', '/b/data.txt', '/same.json', '/a/same.json', '/z/site.css', '/y/site.css', '/a/', '/a/page', '/big.bin', '/form-get-method?k=v', '/nope-handed.txt', '/']
+
+def heads_of(raw):
+    k = raw.find(b'\r\n\r\n')
+    out = {}
+    for line in (raw if k < 0 else raw[:k]).split(b'\r\n')[1:]:
+        n, sep, v = line.partition(b':')
+        if sep: out.setdefault(n.strip().lower().decode('latin1'), v.strip().decode('latin1'))
+    return out
+
+def handed_out(server):
+    """what the server hands out in the heads of its answers to plain requests: {target: {lower-cased header name: value}} for the header
+    names in HAND_BACK (validators, cookies, digests …)"""
+    out = {}
+    for t in HAND_TARGETS:
+        try: a = server.request(req('GET', t, [('Host', 'localhost'), ('Accept-Encoding', 'gzip'), ('Connection', 'close')]), timeout=10)
+        except Exception: continue      # noqa
+        h = {n: v for n, v in heads_of(a).items() if n in HAND_BACK and v}
+        if h: out[t] = h
+    return out
+
+CLIENT_HINTS = [('Save-Data', 'on'), ('Device-Memory', '0.5'), ('Downlink', '0.1'), ('ECT', 'slow-2g'), ('RTT', '3000'), ('Sec-CH-Prefers-Color-Scheme', 'dark'),
+                ('Sec-CH-Prefers-Reduced-Motion', 'reduce'), ('Sec-CH-UA-Arch', '"arm"'), ('Sec-CH-UA-Platform-Version', '"1.0"'), ('Upgrade-Insecure-Requests', '1'), ('DNT', '1'), ('Sec-GPC', '1')]
+
+def feature_requests(rng, files, info, info2, tier, handed, header_names=()):
+    """request families of the second audit pass.  Every request is a member of a one-element group: the plain request (which the
+    families of the first pass hold already for most targets, and which is added here too) plus ONE feature header, or one PAIR."""
+    out, seen = [], set()
+    tok = Tok(rng); tok.n = 5000
+    quick = tier == 'quick'
+    def add(kind, raw, form=False, path=None, group=None, near=False, must=False, **kw):
+        if raw in seen or len(raw) > ALLOC: return
+        seen.add(raw); out.append(dict(kind=kind, raw=raw, form=form, path=path, group=group, near=near, must=must or near, **kw))
+    H = [('Host', 'localhost')]
+    URLENC = ('Content-Type', 'application/x-www-form-urlencoded')
+    EP = '/form-url-encoded-enctype-post-method'
+
+    def b64(s): return base64.b64encode(s.encode()).decode()
+    # ---- ONE header the server ignores today, on several targets; free text carries a token
+    def table():
+        t = tok
+        return [
+            ('conn', 'Connection', ['keep-alive', 'close', 'Keep-Alive', 'keep-alive, Upgrade', 'TE, close', 'upgrade']),
+            ('conn', 'Keep-Alive', ['timeout=5, max=100', 'timeout=0']),
+            ('conn', 'Proxy-Connection', ['keep-alive']),
+            ('encoding', 'Accept-Encoding', ['gzip', 'gzip, deflate, br', 'identity', '*', 'gzip;q=0', 'identity;q=0, gzip', 'br', 'zstd', 'GZIP', '', 'deflate, gzip;q=1.0, *;q=0.5', 'x-gzip']),
+            ('encoding', 'TE', ['trailers', 'chunked', 'gzip', 'trailers, deflate;q=0.5']),
+            ('negotiate', 'Accept', ['text/html', '*/*', 'application/json;q=0.9, */*;q=0.1', 'image/webp', 'text/plain; charset=utf-8', 'text/*;q=0']),
+            ('negotiate', 'Accept-Language', ['de', 'en-US,en;q=0.5', 'uk', '*', 'de-CH, de;q=0.9, en;q=0.8']),
+            ('negotiate', 'Accept-Charset', ['utf-8', 'iso-8859-1;q=0.5']),
+            ('negotiate', 'Prefer', ['return=minimal', 'respond-async, wait=1', 'return=representation', 'handling=lenient']),
+            ('cond', 'If-None-Match', ['*', '"%s"' % t(), 'W/"%s"' % t(), '"a", "b", W/"c"', '']),
+            ('cond', 'If-Match', ['*', '"%s"' % t()]),
+            ('cond', 'If-Modified-Since', [http_date(T0), http_date(0), http_date(4102444800), 'yesterday ' + t(), http_date(T0).replace('GMT', 'UTC'), time.strftime('%A, %d-%b-%y %H:%M:%S GMT', time.gmtime(T0)), time.strftime('%a %b %d %H:%M:%S %Y', time.gmtime(T0)), '', str(T0)]),
+            ('cond', 'If-Unmodified-Since', [http_date(T0), http_date(0), http_date(4102444800)]),
+            ('cond', 'If-Range', ['"%s"' % t(), http_date(T0)]),
+            ('cache', 'Cache-Control', ['no-cache', 'max-age=0', 'only-if-cached', 'no-store', 'max-stale=3600', 'no-transform']),
+            ('cache', 'Pragma', ['no-cache']),
+            ('expect', 'Expect', ['100-continue', '100-Continue', '200-ok', 'x-' + t(), '']),
+            ('proxy', 'Forwarded', ['for=192.0.2.%d;proto=https;host=%s.example' % (rng.below(250), t()), 'for="[2001:db8::1]";by=%s' % t(), 'for=_%s' % t()]),
+            ('proxy', 'X-Forwarded-For', ['192.0.2.%d' % rng.below(250), '10.1.2.3, 192.0.2.7, %s' % t(), 'unknown', t()]),
+            ('proxy', 'X-Forwarded-Proto', ['https', 'http', t()]),
+            ('proxy', 'X-Forwarded-Host', ['%s.example' % t(), 'localhost']),
+            ('proxy', 'X-Forwarded-Port', ['443', '0', '65536']),
+            ('proxy', 'X-Forwarded-Prefix', ['/' + t(), '/a']),
+            ('proxy', 'X-Real-IP', ['192.0.2.%d' % rng.below(250), t()]),
+            ('proxy', 'Via', ['1.1 %s' % t(), '1.0 fred, 1.1 %s.example (proxy)' % t()]),
+            ('proxy', 'Max-Forwards', ['0', '1', '10', '-1', t()]),
+            ('proxy', 'X-Request-Id', [t(), t()]),
+            ('proxy', 'X-Correlation-Id', [t()]),
+            ('proxy', 'Traceparent', ['00-%032x-%016x-01' % (rng.below(2 ** 64), rng.below(2 ** 48))]),
+            ('proxy', 'X-Original-URL', ['/b/data.txt', '/' + t()]),
+            ('proxy', 'X-Rewrite-URL', ['/b/data.txt']),
+            ('proxy', 'X-HTTP-Method-Override', ['HEAD', 'DELETE', 'OPTIONS']),
+            ('session', 'Cookie', ['sid=%s' % t(), 'sid=%s; theme=dark' % t(), 'theme=dark; sid=%s; sid=%s' % (t(), t()), '%s' % t(), 'SID=%s' % t(), 'sid=', '']),
+            ('session', 'Authorization', ['Basic ' + b64('user:' + t()), 'Basic ' + b64(t() + ':pw'), 'Bearer ' + t(), 'basic ' + b64('user:pw'), 'Basic !!!' + t(), 'Digest username="%s", nonce="%s", uri="/a/data.txt", response="0"' % (t(), t()), 'Negotiate ' + t(), '']),
+            ('session', 'Proxy-Authorization', ['Basic ' + b64('proxy:' + t())]),
+            ('session', 'X-Api-Key', [t()]),
+            ('session', 'X-CSRF-Token', [t()]),
+            ('upgrade', 'Upgrade', ['h2c', 'websocket', 'TLS/1.0, HTTP/1.1', t()]),
+            ('upgrade', 'HTTP2-Settings', ['AAMAAABkAARAAAAAAAIAAAAA']),
+            ('upgrade', 'Sec-WebSocket-Key', [b64(t()[:16].ljust(16, 'x'))]),
+            ('upgrade', 'Early-Data', ['1']),
+            ('client', 'User-Agent', ['Mozilla/5.0 (%s) ' % t() + 'A' * 300, 'curl/8.0 ' + t(), '', 'bot ' + t() + ' ' + 'u' * 2000]),
+            ('client', 'Referer', ['http://%s.example/page?x=1' % t(), 'http://localhost/a/data.txt', '/' + t()]),
+            ('client', 'From', ['%s@example.org' % t()]),
+            ('client', 'Date', [http_date(T0), http_date(4102444800)]),
+            ('client', 'Sec-Fetch-Site', ['cross-site', 'same-origin', 'none']),
+            ('client', 'Sec-Fetch-Mode', ['navigate', 'cors', 'no-cors']),
+            ('client', 'Sec-Fetch-Dest', ['document', 'image', 'empty']),
+            ('client', 'Want-Digest', ['md5', 'sha-256;q=1, md5;q=0.3', 'SHA-256']),
+            ('client', 'Want-Content-Digest', ['sha-256=10']),
+            ('client', 'Accept-Datetime', [http_date(T0)]),
+        ] + [('hints', n, [v, t()]) for n, v in CLIENT_HINTS]
+    base_targets = [('GET', '/a/data.txt', b''), ('GET', '/b/data.txt', b''), ('POST', EP, None), ('GET', '/z/site.css', b'')]
+    more = [('GET', '/big.bin', b''), ('GET', '/a/page', b''), ('GET', '/a/', b''), ('GET', '/nope-feature.txt', b''), ('GET', '/same.json', b''), ('GET', '/', b''),
+            ('HEAD', '/a/data.txt', b''), ('OPTIONS', '/a/data.txt', b''), ('GET', '/form-get-method?k=v', b''), ('GET', '/ages/whole.txt', b''), ('GET', '/chunk/c128k.bin', b''), ('GET', '/link.txt', b'')]
+    rng.shuffle(more)
+    targets = base_targets + (more[:2] if quick else more)
+    rows = table()
+    for m, t_, body in targets:
+        g = 'feat:%s %s' % (m, t_)
+        fixed = ('k=%s&l=2' % tok()).encode() if body is None else body       # the SAME body in every member of the group: one element differs
+        hs0 = H + ([URLENC] if body is None else [])
+        add('feat-plain', req(m, t_, hs0, fixed), form=body is None, group=g, must=True)
+        for area, name, values in rows:
+            for v in values:
+                add('feat-' + area, req(m, t_, hs0 + [(name, v)], fixed), form=body is None, group=g,
+                    must=(name, v) in (('Connection', 'keep-alive'), ('Accept-Encoding', 'gzip'), ('Expect', '100-continue'), ('If-None-Match', '*')))
+            # spelled otherwise: lower case, upper case, doubled
+            if rng.chance(1, 3):
+                add('feat-' + area, req(m, t_, hs0 + [(name.lower(), values[0])], fixed), form=body is None, group=g)
+                add('feat-' + area, req(m, t_, hs0 + [(name, values[0]), (name, values[-1])], fixed), form=body is None, group=g)
+    # ---- every header name the SOURCE mentions (the vocabulary of the tree under test: a header a change teaches the server appears here)
+    known = {n.lower() for _, n, _ in rows} | {'host', 'origin', 'range', 'content-type', 'content-length', 'access-control-request-method', 'access-control-request-headers'}
+    vocab = sorted(n for n in header_names if n.lower() not in known)
+    for n in vocab:
+        for m, t_, body in targets[:(2 if quick else 4)]:
+            add('feat-vocab', req(m, t_, H + [(n, rng.choice(['1', tok(), http_date(T0), 'gzip', '*', '0', 'keep-alive', '"x"']))]), group='feat:%s %s' % (m, t_))
+            add('feat-vocab', req(m, t_, H + [(n, tok())]), group='feat:%s %s' % (m, t_))
+
+    # ---- PAIRS of headers: each with and without its partner
+    for t_ in ['/a/data.txt', '/big.bin'][:(1 if quick else 2)] + ['/z/big.txt']:
+        g = 'pair:' + t_
+        R_ = ('Range', 'bytes=0-99')
+        for hs in [[R_], [R_, ('Accept-Encoding', 'gzip')], [R_, ('If-Range', '"%s"' % tok())], [R_, ('If-Range', http_date(T0))], [R_, ('If-Range', http_date(T0 + 50))], [R_, ('If-Match', '*')],
+                   [R_, ('If-None-Match', '*')], [R_, ('If-Modified-Since', http_date(4102444800))], [R_, ('If-Unmodified-Since', http_date(0))], [R_, ('Connection', 'keep-alive')],
+                   [('If-None-Match', '"x"'), ('If-Modified-Since', http_date(4102444800))], [('If-None-Match', '*'), ('If-Modified-Since', http_date(0))],
+                   [('Connection', 'Upgrade'), ('Upgrade', 'websocket'), ('Sec-WebSocket-Key', b64('0123456789abcdef')), ('Sec-WebSocket-Version', '13')],
+                   [('Connection', 'Upgrade, HTTP2-Settings'), ('Upgrade', 'h2c'), ('HTTP2-Settings', 'AAMAAABkAARAAAAAAAIAAAAA')], [('Connection', 'keep-alive'), ('Keep-Alive', 'timeout=1')],
+                   [('Origin', 'http://a.example'), ('Cookie', 'sid=' + tok())], [('Origin', 'http://allowed.example'), ('Authorization', 'Bearer ' + tok())], [('Origin', 'http://allowed.example'), ('Cookie', 'sid=' + tok())],
+                   [('Origin', 'https://foo.example'), ('X-Forwarded-Proto', 'http')], [('Origin', 'http://a.example'), ('Accept-Encoding', 'gzip')],
+                   [('Accept-Encoding', 'gzip'), ('Cache-Control', 'no-transform')], [('Accept-Encoding', 'gzip'), ('User-Agent', 'MSIE 6.0 ' + tok())],
+                   [('Range', 'bytes=0-0,5-9'), ('Accept-Encoding', 'gzip')], [('Range', 'bytes=-1'), ('If-Range', http_date(T0))]]:
+            add('feat-pair', req('GET', t_, H + hs), group=g, must=len(hs) == 2 and hs[0] == R_ and hs[1][0] in ('Accept-Encoding', 'If-Range'))
+    # the version of the request line next to the Connection header (1.0 closes unless asked, 1.1 stays open unless asked)
+    for v in ['HTTP/1.0', 'HTTP/1.1']:
+        for hs in [[], [('Connection', 'keep-alive')], [('Connection', 'close')]]:
+            add('feat-conn', req('GET', '/a/data.txt', H + hs, version=v), group='conn-version', must=v == 'HTTP/1.0' and len(hs) == 1 and hs[0][1] == 'keep-alive')
+            add('feat-conn', req('POST', EP, [URLENC] + hs, b'k=1', version=v), form=True, group='conn-version')
+    for o in ['http://allowed.example', 'https://foo.example', 'http://denied.example']:      # credentials next to an origin: the configured list says allow-credentials
+        for hs in [[('Cookie', 'sid=' + tok())], [('Authorization', 'Basic ' + b64('u:' + tok()))], []]:
+            add('cors-credentials', req('GET', '/a/data.txt', H + [('Origin', o)] + hs), group='pre:cred')
+            add('cors-credentials', req('OPTIONS', '/a/data.txt', H + [('Origin', o), ('Access-Control-Request-Method', 'GET'), ('Access-Control-Request-Headers', 'Authorization, Cookie')] + hs), group='pre:cred')
+    # the same credentials on two targets, two credentials on one target, one a prefix of the other
+    c1, c2 = tok(), tok()
+    for t_ in ['/a/data.txt', '/b/data.txt', '/z/.htaccess', EP]:
+        for c in [c1, c2, c1[:-2], c1 + 'x']:
+            add('feat-session', req('GET' if t_ != EP else 'POST', t_, H + [('Authorization', 'Basic ' + b64('user:' + c)), ('Cookie', 'sid=' + c)] + ([URLENC] if t_ == EP else []), b'' if t_ != EP else b'k=' + c.encode()),
+                form=t_ == EP, group='cred')
+    # Host: another name, a port, none, two, empty, upper case; next to the target they decide on
+    for hv in [['other.example'], ['localhost:8080'], ['LOCALHOST'], [], ['localhost', 'other.example'], [''], ['%s.example' % tok()], ['127.0.0.1'], ['[::1]:80'], ['localhost.']]:
+        for t_ in ['/a/data.txt', '/'] + ([] if quick else ['/a/', '/nope-host']):
+            add('feat-host', req('GET', t_, [('Host', h) for h in hv] + [('Origin', 'http://a.example')]), group='host:' + t_)
+
+    # ---- a header and the BYTES AFTER THE HEAD
+    t1, t2 = tok(), tok()
+    body = ('first=%s&second=%s' % (t1, t2)).encode()
+    # (the pieces end where a field ends: a token cut in two by a chunk-size line would read like another token in the echo)
+    chunked = lambda b, trailer=b'': b''.join(b'%x\r\n' % len(c) + c + b'\r\n' for c in re.findall(rb'[^&]*&?', b) if c) + b'0\r\n' + trailer + b'\r\n'
+    n = len(body)
+    for hs, bd in [([('Expect', '100-continue'), ('Content-Length', str(n))], body), ([('Expect', '100-continue'), ('Content-Length', str(n))], b''), ([('Expect', '100-continue'), ('Content-Length', str(n))], body[:9]),
+                   ([('Expect', '100-continue'), ('Content-Length', '0')], b''), ([('Expect', '100-continue')], body), ([('Expect', '100-continue'), ('Content-Length', str(n))], body + b'&third=' + tok().encode()),
+                   ([('Content-Length', str(n))], body), ([('Content-Length', '9')], body), ([('Content-Length', str(n + 50))], body), ([('Content-Length', '0')], body), ([('Content-Length', str(n)), ('Content-Length', '9')], body),
+                   ([('Content-Length', '-1')], body), ([('Content-Length', ' %d ' % n)], body), ([('content-length', str(n))], body),
+                   ([('Transfer-Encoding', 'chunked')], chunked(body)), ([('Transfer-Encoding', 'chunked')], chunked(body, b'X-Trailer: ' + tok().encode() + b'\r\n')), ([('Transfer-Encoding', 'chunked')], body),
+                   ([('Transfer-Encoding', 'chunked'), ('Content-Length', str(n))], chunked(body)), ([('Transfer-Encoding', 'chunked')], b'ffff\r\n' + body), ([('Transfer-Encoding', 'gzip, chunked')], chunked(gz(body))),
+                   ([('Transfer-Encoding', 'identity')], body), ([('TE', 'trailers'), ('Transfer-Encoding', 'chunked'), ('Trailer', 'X-Trailer')], chunked(body, b'X-Trailer: 1\r\n')),
+                   ([('Content-Encoding', 'gzip')], gz(body)), ([('Content-Encoding', 'gzip')], body), ([('Content-Encoding', 'identity')], body), ([('Content-Encoding', 'deflate')], gz(body)[10:-8]),
+                   ([('Content-MD5', base64.b64encode(hashlib.md5(body).digest()).decode())], body), ([('Content-MD5', base64.b64encode(hashlib.md5(b'x').digest()).decode())], body),
+                   ([('Digest', 'sha-256=' + base64.b64encode(hashlib.sha256(body).digest()).decode())], body), ([('Digest', 'sha-256=AAAA')], body),
+                   ([('Connection', 'keep-alive'), ('Content-Length', str(n))], body), ([('Connection', 'close'), ('Content-Length', str(n))], body)]:
+        add('feat-body', req('POST', EP, [URLENC] + hs, bd), form=True, group='body', must=hs[0][0] in ('Expect', 'Transfer-Encoding') and len(out) % 2 == 0)
+    # bodies framed by chunks or by Content-Length, LONG ones and very short ones: what a reader of such bodies keeps between two
+    # requests (a scratch buffer that is not wiped) shows when a short body follows a long one
+    long_body = '&'.join('c%d=%s' % (i, tok()) for i in range(40)).encode()
+    for bd in [long_body, b'n=1', b'm=2&n=3', long_body[:len(long_body) // 2]]:
+        add('feat-body', req('POST', EP, [URLENC, ('Transfer-Encoding', 'chunked')], chunked(bd)), form=True, group='body-length', must=True)
+        add('feat-body', req('POST', EP, [URLENC, ('Content-Length', str(len(bd)))], bd), form=True, group='body-length', must=len(bd) < 10)
+        add('feat-body', req('POST', EP, [URLENC, ('Content-Length', str(len(bd))), ('Expect', '100-continue')], bd), form=True, group='body-length')
+        add('feat-body', req('POST', EP, [URLENC, ('Content-Length', str(len(bd))), ('Connection', 'keep-alive')], bd), form=True, group='body-length')
+    for hs, bd in [([], b'body-on-a-get-' + tok().encode()), ([('Content-Length', '30')], b'body-on-a-get-' + tok().encode()), ([('Expect', '100-continue'), ('Content-Length', '5')], b''), ([('Transfer-Encoding', 'chunked')], chunked(tok().encode())),
+                   ([('Content-Length', '5')], b'')]:
+        add('feat-body', req('GET', '/a/data.txt', H + hs, bd), group='body')
+    # two requests in one piece (a server that keeps the connection open answers both; this one reads the second as the body of the first)
+    short = req('POST', EP, [URLENC], b'n=1')
+    for first, second in [(req('GET', '/a/data.txt', H), req('GET', '/b/data.txt', H)), (req('GET', '/a/data.txt', H + [('Connection', 'keep-alive')]), req('GET', '/b/data.txt', H + [('Connection', 'close')])),
+                          (req('POST', EP, [URLENC, ('Content-Length', str(n)), ('Connection', 'keep-alive')], body), short), (req('HEAD', '/a/data.txt', H), req('GET', '/a/data.txt', H)),
+                          (short, req('POST', EP, [URLENC], ('k=%s' % tok()).encode())), (req('GET', '/nope-%s' % tok(), H + [('Connection', 'keep-alive')]), req('GET', '/a/data.txt', H))]:
+        add('feat-pipeline', first + second, form=first.startswith(b'POST'), group='pipeline')
+
+    # ---- a file and its NEIGHBOUR: every plain file of z/ with and without Accept-Encoding, its twin in y/, the side file itself
+    AE = [[], [('Accept-Encoding', 'gzip')], [('Accept-Encoding', 'br')], [('Accept-Encoding', 'gzip, br')], [('Accept-Encoding', 'identity')], [('Accept-Encoding', 'gzip;q=0')],
+          [('Accept-Encoding', 'gzip'), ('Range', 'bytes=0-9')], [('Accept-Encoding', 'gzip'), ('If-Modified-Since', http_date(T0 + 60))]]
+    for plain, side in info2['sidecar'] + [(p, p + '.gz') for p in info2['lonely']]:
+        for hs in AE:
+            add('feat-sidecar', req('GET', plain, H + hs), group='side:' + plain, must=len(hs) == 1 and hs[0][1] in ('gzip', 'br'))
+        add('feat-sidecar', req('HEAD', plain, H + [('Accept-Encoding', 'gzip')]), group='side:' + plain)
+        add('feat-sidecar', req('GET', side, H), group='side:' + plain)
+        add('feat-sidecar', req('GET', side, H + [('Accept-Encoding', 'gzip')]), group='side:' + plain)
+    for z, y in info2['twins']:
+        for hs in AE[:4]:
+            add('feat-sidecar', req('GET', y, H + hs), group='side:' + z)
+    for t_ in ['/y/', '/y', '/y/sub/', '/y/sub/missing.txt', '/y/sub/index.html', '/y/sub/index', '/y/index.htm', '/z/.htaccess', '/z/.headers', '/z/site.css.md5', '/robots.txt', '/.well-known/security.txt',
+               '/.well-known/', '/z/missing.css', '/y/sub/default', '/favicon.ico']:
+        add('feat-neighbour', req('GET', t_, H), group='neighbour')
+        add('feat-neighbour', req('GET', t_, H + [('Accept-Encoding', 'gzip'), ('Accept', 'text/html')]), group='neighbour')
+
+    # ---- a file's AGE and the validator of the request: exactly its age, one second (one nanosecond) before and after; its size and age as an entity tag in the usual spellings
+    def validators(p):
+        s, ns = info2['ages'][p]; size = len(files.get(p, b''))
+        for d in (0, -1, 1):
+            yield 'If-Modified-Since', http_date(s + d), d == 0
+            yield 'If-Unmodified-Since', http_date(s + d), False
+        for d in (0, -1, 1):
+            yield 'If-Modified-Since-Unix-Epoch-Nanos', str(s * 10 ** 9 + ns + d), False
+        for e in ['"%x-%x"' % (s, size), 'W/"%x-%x"' % (s, size), '"%d-%d"' % (size, s), '"%d-%d"' % (s * 10 ** 9 + ns, size), '"%d"' % (s * 10 ** 9 + ns), '"%s"' % hashlib.md5(files.get(p, b'')).hexdigest(),
+                  '"%s"' % hashlib.sha1(files.get(p, b'')).hexdigest()]:
+            yield 'If-None-Match', e, False
+    aged = [p for p in sorted(info2['ages']) if p.startswith('/ages/') or p in ('/z/site.css', '/y/site.css', '/z/app.js')]
+    if quick: rng.shuffle(aged)
+    for j, p in enumerate(aged):
+        for name, v, exact in validators(p):
+            if quick and j >= 4 and not exact: continue
+            add('feat-age', req('GET', p, H + [(name, v)]), group='age:' + p, must=exact and j < 6)
+        add('feat-age', req('GET', p, H), group='age:' + p)
+        add('feat-age', req('GET', p, H + [('Range', 'bytes=0-9'), ('If-Range', http_date(info2['ages'][p][0]))]), group='age:' + p)
+    # the validator of ONE file on ANOTHER one (same age other size, same size other age, the twin)
+    for p, q in [('/ages/p.txt', '/ages/q.txt'), ('/ages/p.txt', '/ages/r.txt'), ('/ages/whole.txt', '/ages/frac9.txt'), ('/ages/whole.txt', '/ages/next.txt'), ('/z/site.css', '/y/site.css'), ('/ages/dir/', '/ages/whole.txt')]:
+        if p not in info2['ages'] and p.rstrip('/') + '/index.html' not in info2['ages']: continue
+        sp = info2['ages'].get(p) or info2['ages'][p.rstrip('/') + '/index.html']
+        for t_ in (p, q):
+            add('feat-age', req('GET', t_, H + [('If-Modified-Since', http_date(sp[0]))]), group='age2:' + p + q, must=True)
+            add('feat-age', req('GET', t_, H + [('If-None-Match', '"%x-%x"' % (sp[0], len(files.get(p, b''))))]), group='age2:' + p + q)
+
+    # ---- what the server HANDED OUT comes back: on the same target, on its neighbour, changed in the last character
+    targets_h = sorted(handed)
+    for j, t_ in enumerate(targets_h):
+        others = targets_h[j + 1:] + targets_h[:j]            # the next one first: namesakes and twins are neighbours in HAND_TARGETS
+        for hn, hv in sorted(handed[t_].items()):
+            val = hv.split(';')[0] if hn == 'set-cookie' else hv
+            near_v = val[:-1] + ('0' if val[-1:] != '0' else '1') if val[-1:] != '"' else val[:-2] + ('0' if val[-2:-1] != '0' else '1') + '"'
+            if hn == 'location' and val.startswith('/'):          # where the server sends the client: the client goes there
+                add('feat-handed', req('GET', val, H), group='handed:location'); add('feat-handed', req('GET', val, H + [('Referer', 'http://localhost' + t_)]), group='handed:location')
+            for back in HAND_BACK.get(hn, []):
+                extra = [('Range', 'bytes=0-9')] if back == 'If-Range' else []
+                g = 'handed:' + hn + back
+                add('feat-handed', req('GET', t_, H + extra + [(back, val)]), group=g, must=j < 3)
+                for k, u in enumerate(others[:(3 if quick else 8)]):
+                    # the validator of ONE target presented for ANOTHER one
+                    add('feat-handed', req('GET', u, H + extra + [(back, val)]), group=g + ' on another target', must=k == 0 and j < 4)
+                add('feat-handed', req('GET', t_, H + extra + [(back, near_v)]), group=g + ' nearly')
+                add('feat-handed', req('HEAD', t_, H + [(back, val)]), group=g)
+
+    # ---- ranges at the borders of whole pieces, many ranges, overlapping / descending / repeated ranges
+    for p in info2['chunk'] + ['/z/big.txt']:
+        size = len(files[p])
+        specs = ['bytes=65535-65536', 'bytes=%d-' % (size - 1), 'bytes=0-%d' % (size - 1), 'bytes=0-%d' % size, 'bytes=65536-131071', 'bytes=-65536', 'bytes=-65537', 'bytes=131071-131073',
+                 'bytes=0-99,50-149', 'bytes=100-199,0-99', 'bytes=0-9,0-9,0-9', 'bytes=' + ','.join('%d-%d' % (i * 1000, i * 1000 + 9) for i in range(60)), 'bytes=0-0,-1', 'bytes=0-65535,65536-%d' % (size - 1),
+                 'bytes=%d-%d,0-0' % (size - 1, size - 1)]
+        for spec in specs:
+            add('feat-range', req('GET', p, H + [('Range', spec)]), group='big:' + p, must=spec.startswith('bytes=0-99,50') or spec.startswith('bytes=0-65535,'))
+        add('feat-range', req('HEAD', p, H), group='big:' + p)
+    return out
+
+# ----------------------------------------------------------------------------- connection kinds of the second pass
+def abort_after_send(port, raw, timeout=10, wait_first_byte=False):
+    """connect, send, optionally wait for the first piece of the answer, then RESET the connection: the server's write fails half way"""
+    import struct
+    s = socket.socket(socket.AF_INET, socket.SOCK_STREAM)
+    try:
+        s.settimeout(timeout)
+        s.setsockopt(socket.SOL_SOCKET, socket.SO_RCVBUF, 4096)
+        s.connect(('127.0.0.1', port))
+        s.sendall(raw)
+        if wait_first_byte:
+            try: s.recv(1024)
+            except OSError: pass
+        s.setsockopt(socket.SOL_SOCKET, socket.SO_LINGER, struct.pack('ii', 1, 0))
+    finally:
+        s.close()
+    return b''
+
+def read_one_answer(s, timeout, no_body=False):
+    """one answer off a connection that may stay open: the head, then Content-Length bytes (no_body: the answer to a HEAD request).
+    Returns (bytes, ended): ended = the server closed the connection (or nothing more came in time) before the answer was complete
+    by its own Content-Length - which is how a server that closes after every answer ends all of them"""
+    s.settimeout(timeout)
+    buf = b''
+    def more():
+        try: b = s.recv(1 << 16)
+        except (socket.timeout, ConnectionResetError, BrokenPipeError, OSError): return None
+        return b or None
+    while b'\r\n\r\n' not in buf:
+        b = more()
+        if b is None: return buf, True
+        buf += b
+    k = buf.find(b'\r\n\r\n')
+    m = re.search(rb'(?im)^content-length:[ \t]*(\d+)[ \t]*\r?$', buf[:k + 2])
+    if m is None or no_body: return buf, False
+    need = k + 4 + int(m.group(1))
+    while len(buf) < need:
+        b = more()
+        if b is None: return buf, True
+        buf += b
+    return buf, False
